@@ -45,6 +45,13 @@ func (a *Application) proxyHandler(w http.ResponseWriter, r *http.Request) {
 		return
 	}
 
+	// Model routing may have rejected the request (model unknown -> 404, model only on
+	// unhealthy endpoints -> 503). Answer with that status instead of letting the proxy
+	// engine fail on an empty endpoint list with a generic 502.
+	if len(endpoints) == 0 && a.writeRoutingRejection(w, pr) {
+		return
+	}
+
 	a.logRequestStart(pr, len(endpoints))
 
 	// Strip the route prefix before forwarding to the backend.
@@ -299,6 +306,32 @@ func (a *Application) buildLogFields(pr *proxyRequest, duration time.Duration) [
 	}
 
 	return fields
+}
+
+// writeRoutingRejection answers a request that model routing rejected with the status the
+// routing strategy computed. Returns false when routing did not reject the request.
+func (a *Application) writeRoutingRejection(w http.ResponseWriter, pr *proxyRequest) bool {
+	if pr.profile == nil || pr.profile.RoutingDecision == nil {
+		return false
+	}
+	decision := pr.profile.RoutingDecision
+	if decision.Action != ports.RoutingActionRejected || decision.StatusCode < http.StatusBadRequest {
+		return false
+	}
+
+	pr.requestLogger.Warn("Request rejected by model routing",
+		"model", pr.model,
+		"strategy", decision.Strategy,
+		"reason", decision.Reason,
+		"status", decision.StatusCode)
+
+	w.Header().Set(constants.HeaderXOllaRoutingStrategy, decision.Strategy)
+	w.Header().Set(constants.HeaderXOllaRoutingDecision, decision.Action)
+	if decision.Reason != "" {
+		w.Header().Set(constants.HeaderXOllaRoutingReason, decision.Reason)
+	}
+	http.Error(w, fmt.Sprintf("Model %s is not available: %s", pr.model, decision.Reason), decision.StatusCode)
+	return true
 }
 
 func (a *Application) handleEndpointError(w http.ResponseWriter, pr *proxyRequest, err error) {
